@@ -156,6 +156,31 @@ def gen_priority(tier: str, rng: random.Random) -> Iterator[Dict[str, Any]]:
         yield sc
 
 
+def gen_priority_idle(tier: str, rng: random.Random) -> Iterator[Dict[str, Any]]:
+    """PRIORITY frames for streams that do not exist yet (the placeholders some browsers create at the start of a
+    connection), each in a read of its own, well before - or never followed by - the HEADERS of that stream;
+    no dependency cycles here."""
+    for vi, (dep, excl, later) in enumerate(((0, False, True), (0, True, True), (5, False, True), (0, False, False),
+                                             (7, True, False))):
+        steps: List[Dict[str, Any]] = [
+            {"s": "h2", "op": "prio", "stream": 3, "weight": 16, "depends_on": dep, "exclusive": excl},
+            {"s": "dt", "d": 0.01},
+            {"s": "h2", "op": "ping"},
+            {"s": "dt", "d": 0.01},
+            build.h2_headers(1, 1, "GET", toks=[["/i1", "/i1"]]),
+            {"s": "dt", "d": 0.01},
+        ]
+        apps = {"1": big_resp(1, 39000, 7000)}
+        if later:
+            steps += [build.h2_headers(2, 3, "GET", toks=[["/i2", "/i2"]]), {"s": "dt", "d": 0.01}]
+            apps["2"] = big_resp(2, 20000, 7000)
+        steps += [{"s": "h2", "op": "wupd", "stream": 0, "n": 300000}, {"s": "h2", "op": "wupd", "stream": 1, "n": 100000}]
+        if later:
+            steps.append({"s": "h2", "op": "wupd", "stream": 3, "n": 100000})
+        steps.append({"s": "dt", "d": 0.05})
+        yield h2_script(steps, apps, "h2/priority-idle/%d" % vi, settings={4: 4000}, autoack=False, maxchunk=7000)
+
+
 def gen_release(tier: str, rng: random.Random) -> Iterator[Dict[str, Any]]:
     """C08: a send is made to wait (mid-body on the buffer, or on the final drain), then the
     stream is reset / the peer goes away / the server closes / credit arrives."""
@@ -369,6 +394,29 @@ def gen_h2_basic(tier: str, rng: random.Random) -> Iterator[Dict[str, Any]]:
                         "h2/c02/trailers-then-next/%s" % te)
 
 
+def gen_h2c_trailers(tier: str, rng: random.Random) -> Iterator[Dict[str, Any]]:
+    """A request upgraded from HTTP/1.1 (h2c) carries its HTTP/1.1 headers into stream 1 unvalidated: TE may say
+    anything there.  Trailers go only to a client whose TE offered `trailers`."""
+    from .gen_h1 import base_script, stream_len
+
+    prog = [["recv_body"],
+            ["send", {"type": "http.response.start", "status": 200, "headers": [["x-a", "1"]], "trailers": True}],
+            ["send", {"type": "http.response.body", "pat": [9, 0, 5], "more": False}],
+            ["send", {"type": "http.response.trailers", "headers": [["x-trailer", "t"]], "more": False}],
+            ["recv_disc"]]
+    for name, te in (("trailers", "trailers"), ("none", None), ("gzip", "gzip"), ("deflate-q", "deflate;q=0.5"), ("empty", "")):
+        hdrs = [["Host", "hypercorn"], ["Connection", "Upgrade, HTTP2-Settings" + (", TE" if te is not None else "")],
+                ["Upgrade", "h2c"], ["HTTP2-Settings", "AAMAAABkAAQAAP__"]]
+        if te is not None:
+            hdrs.append(["TE", te])
+        rq = {"rid": 1, "method": "GET", "target": "/h2c-te", "version": "1.1", "kind": "http", "upgrade": "h2c", "headers": hdrs}
+        sc = base_script([rq], {"*": prog}, fam="h2/c02/h2c-upgrade-trailers/te=%s" % name)
+        sc["creqs"][0]["ver"] = "2"
+        sc["opening"] = "h2c"
+        sc["steps"] = [{"s": "send", "upto": stream_len(sc)}, {"s": "dt", "d": 0.05}]
+        yield sc
+
+
 def _frame_hex(frame) -> str:
     return frame.serialize().hex()
 
@@ -496,6 +544,26 @@ def gen_refused_start(tier: str, rng: random.Random) -> Iterator[Dict[str, Any]]
                              {"s": "dt", "d": 0.05}]
                     yield h2_script(steps, {"1": bad, "2": build.simple_resp_program(chunks=[2])},
                                     "c05/refused-start/h2/%s/%s" % (name, end))
+
+
+def gen_failed_upload(tier: str, rng: random.Random) -> Iterator[Dict[str, Any]]:
+    """An application that fails (or answers) before it has read its upload; the rest of the upload - a whole
+    connection window of it - arrives afterwards; then another stream uploads: what the server throws away for
+    the failed request must not cost the connection its flow-control credit."""
+    for end in ("raise", "return", "answer-early"):
+        prog1: List[Any] = [[end]] if end != "answer-early" else build.simple_resp_program(chunks=[2], read_first=False)[:-1] + [["return"]]
+        for late in (65535, 40000):
+            steps = [build.h2_headers(1, 1, "POST", toks=[["/fail", "/fail"]], end=False, total=70000),
+                     {"s": "dt", "d": 0.05},
+                     {"s": "h2", "op": "data", "stream": 1, "pat": [1, 0, late], "end": False},
+                     {"s": "dt", "d": 0.05},
+                     build.h2_headers(2, 3, "POST", toks=[["/up", "/up"]], end=False, total=30000),
+                     {"s": "h2", "op": "data", "stream": 3, "pat": [2, 0, 30000], "end": True},
+                     {"s": "dt", "d": 0.05}]
+            sc = h2_script(steps, {"1": prog1, "2": build.simple_resp_program(chunks=[2])},
+                           "h2/c05/failed-upload-then-sibling/%s/%d" % (end, late))
+            sc["bodies"] = {"1": [1, 70000], "2": [2, 30000]}
+            yield sc
 
 
 def gen_h2_faults(tier: str, rng: random.Random) -> Iterator[Dict[str, Any]]:
